@@ -1,12 +1,15 @@
 import RoaringModel.Treemap
+import RoaringModel.Ops
+import RoaringModel.MultiOps
 /-!
 # `RoaringTreemap` binary operations, relations, cardinalities and multi-ops
   (treemap/ops.rs, treemap/cmp.rs, treemap/multiops.rs)
 
-The 32-bit operations the treemap code delegates to are a **parameter** (`Ops32`): the 32-bit binary ops
-(Ops.lean, family `algebra`) and multi-ops (MultiOps.lean, family `multi`) are written in parallel and are
-plugged in at merge; the C11 theorems are stated for every `Ops32` that satisfies the 32-bit
-specifications (`Ops32.Laws`, Props/C11.lean).  Everything at the partition level — operand swaps on
+The 32-bit operations the treemap code delegates to are a **parameter** (`Ops32`), so that the partition-level
+proofs are independent of the 32-bit layer; `Ops32.model` below instantiates every field with the mirrored
+32-bit model function of exactly the form the Rust calls on the inner `RoaringBitmap`s (Ops.lean, Cmp.lean,
+MultiOps.lean) — this is the instance the driver runs and the unconditional C11 theorems are about.
+Everything at the partition level — operand swaps on
 `len()`, `Entry::Vacant/Occupied` flows, removal of emptied partitions, `Pairs`, the heap-based k-way merge
 with grouping of equal keys — is mirrored here.
 -/
@@ -38,6 +41,41 @@ structure Ops32 where
   multiSubRef : List Bitmap → Bitmap
   multiXorOwn : List Bitmap → Bitmap
   multiXorRef : List Bitmap → Bitmap
+
+/-- **the mirrored 32-bit operations**, in exactly the form treemap/ops.rs, cmp.rs and multiops.rs call them:
+
+* ops.rs:164 `BitOrAssign::bitor_assign(ent.get_mut(), other_rb)` with `other_rb : RoaringBitmap` (the loop
+  consumes `rhs.map`) = `BitOrAssign<RoaringBitmap>` = `Bitmap.orAO`; ops.rs:180 the same call with
+  `other_rb : &RoaringBitmap` = `Bitmap.orAR`;
+* ops.rs:248 `BitAndAssign::bitand_assign(self_rb, other_rb)` with `other_rb : &RoaringBitmap` = `Bitmap.andAR`
+  (the owned treemap form only swaps and delegates to the `&` form, ops.rs:237);
+* ops.rs:315 `SubAssign::sub_assign(entry.get_mut(), rhs_rb)` with `rhs_rb : &RoaringBitmap` = `Bitmap.subAR`;
+* ops.rs:376 / 395 `BitXorAssign::bitxor_assign(entry.get_mut(), other_rb)` owned / borrowed = `Bitmap.xorAO` /
+  `Bitmap.xorAR`;
+* ops.rs:54 `lhs.intersection_len(rhs)`, cmp.rs:40 `is_disjoint`, cmp.rs:73 `is_subset`;
+* multiops.rs:249-291 `iter.union()` … on `I: IntoIterator<Item = RoaringBitmap>` (`MultiOps<RoaringBitmap>`,
+  `Multi.multiOwned`) resp. `Item = &RoaringBitmap` (`MultiOps<&RoaringBitmap>`, `Multi.multiRef`).  The
+  iterators handed over are `bitmaps.drain(..).map(..)` (`vec::Drain` is exact-size, `Map` forwards
+  `size_hint`) and `iter::once(..).chain(slice_iter.map(..))` (`Chain` adds the two exact upper bounds), so
+  `size_hint().1 = Some(len)`: `Hint.exact`. -/
+def Ops32.model : Ops32 where
+  orAO := Bitmap.orAO
+  orAR := Bitmap.orAR
+  andAR := Bitmap.andAR
+  subAR := Bitmap.subAR
+  xorAO := Bitmap.xorAO
+  xorAR := Bitmap.xorAR
+  interLen := Bitmap.interLen
+  isSubset := Bitmap.isSubset
+  isDisjoint := Bitmap.isDisjoint
+  multiOrOwn := Multi.multiOwned .or .exact
+  multiOrRef := Multi.multiRef .or .exact
+  multiAndOwn := Multi.multiOwned .and .exact
+  multiAndRef := Multi.multiRef .and .exact
+  multiSubOwn := Multi.multiOwned .sub .exact
+  multiSubRef := Multi.multiRef .sub .exact
+  multiXorOwn := Multi.multiOwned .xor .exact
+  multiXorRef := Multi.multiRef .xor .exact
 
 namespace Treemap
 variable (o : Ops32)
